@@ -124,7 +124,7 @@ def offchain(c):
     if c.violations:
         return c.finish(rule="stopped after the first failing stage")
     # 2. random scenarios with many request kinds and transaction kinds
-    n = 60 if thorough else 6
+    n = 68 if thorough else 14      # 8 session-cache scenarios + random ones
     tr = os.path.join(c.scratch, "rel-random.ndjson")
     targs = ["random-rel", "-n", n, "-out", tr]
     rep = vf.run_harness("vh-rel", targs, env={"VERIF_SEED": c.seed}, timeout=3000)
